@@ -14,7 +14,7 @@ ATTRS = {"units": "K"}
 def _make(S, t, dims):
     labs, axes = {}, []
     for d in dims:
-        L = S.array1d("a%d.%s" % (t, d), "f")
+        L = S.array1d("a%d.%s" % (t, d), "O" if d == "y" else "f")      # x: numeric labels, y: string labels
         assume_order(S, L, "unique")
         labs[d] = L
         axes.append(S.da.Axis(L, d))
@@ -208,3 +208,79 @@ class ScalarOperation(Contract):
 
     def canaries(self, S, case, env, result):
         yield "result-is-empty", S.shape(result.values)[0] == 0
+
+
+class Comparison(Contract):
+    """a < s, a <= s, a > s, a >= s, a == s, a != s (s a scalar) and a cmp b for a DimArray b over EQUAL axes: a boolean DimArray
+    with NumPy's comparison cell by cell, over a's own dims and labels, WITHOUT the operands' metadata; for a DimArray b whose
+    axes differ the ordering operators raise ValueError and == answers False; operands untouched.  [C16, C15]"""
+    target = "dimarray.core.dimarraycls:DimArray._cmp"
+    props = ("C16", "C15")
+    inlined = ("_to_array_equiv", "Axes.__ne__ / Axis.__eq__", "_constructor")
+
+    CMPS = {"lt": operator.lt, "le": operator.le, "gt": operator.gt, "ge": operator.ge, "eq": operator.eq, "ne": operator.ne}
+
+    def cases(self, tier):
+        for cmp in self.CMPS:
+            for other in ("scalar", "dimarray-same-axes", "dimarray-other-labels"):
+                if other != "scalar" and cmp in ("le", "ge", "ne") and tier == "quick":
+                    continue
+                yield {"name": "%s-%s" % (cmp, other), "cmp": cmp, "other": other}
+
+    def bound_lengths(self, case):
+        return ["a0.x.n"] + (["a1.x.n"] if case["other"] == "dimarray-other-labels" else [])
+
+    def setup(self, S, case):
+        a, la, xa = _make(S, 0, ["x"])
+        env = {"a": a, "la": la, "data": xa, "old": S.snapshot(xa), "axes0": list(a.axes)}
+        if case["other"] == "scalar":
+            env["s"] = S.real("s")
+        elif case["other"] == "dimarray-same-axes":
+            xb = S.arraynd("a1.data", "f", (S.n(la["x"]),))
+            env["b"] = S.da.DimArray(xb, axes=[S.da.Axis(la["x"].copy(), "x")])
+            env["bdata"] = xb
+        else:
+            b, lb, xb = _make(S, 1, ["x"])
+            env["b"], env["lb"], env["bdata"] = b, lb, xb
+        return env
+
+    def call(self, fn, env):
+        case = env["case"]
+        rhs = env["s"] if case["other"] == "scalar" else env["b"]
+        return self.CMPS[case["cmp"]](env["a"], rhs)
+
+    def _differ(self, S, env):
+        la, lb = env["la"]["x"], env["lb"]["x"]
+        return S.lor(S.n(la) != S.n(lb), S.exists(0, S.n(la), lambda k: S.implies(k < S.n(lb), lambda: S.at(la, k) != S.at(lb, k))))
+
+    def raises(self, S, case, env):
+        if case["other"] == "dimarray-other-labels" and case["cmp"] not in ("eq", "ne"):
+            return {ValueError: self._differ(S, env)}
+        return {}
+
+    def post(self, S, case, env, result):
+        cmp, la, old = case["cmp"], env["la"]["x"], env["old"]
+        n = S.n(la)
+        if case["other"] == "dimarray-other-labels" and cmp in ("eq", "ne"):
+            # axes differ: == answers False, != answers True (a plain bool); equal axes: as below
+            yield "plain-bool-iff-the-axes-differ", S.iff(self._differ(S, env), not S.is_dimarray(result))
+            if not S.is_dimarray(result):
+                yield "answer-when-the-axes-differ", result is (cmp == "ne")
+                return
+        yield "is-dimarray-over-the-operands-dims", S.is_dimarray(result) and tuple(result.dims) == ("x",)
+        Lr = result.axes[0].values
+        yield "labels-are-the-operands", S.land(S.n(Lr) == n, S.forall(0, n, lambda k: S.implies(k < S.n(Lr), lambda: S.at(Lr, k) == S.at(la, k))))
+        f = {"lt": lambda x, y: x < y, "le": lambda x, y: x <= y, "gt": lambda x, y: x > y, "ge": lambda x, y: x >= y, "eq": lambda x, y: x == y, "ne": lambda x, y: x != y}[cmp]
+        rhs = (lambda k: env["s"]) if case["other"] == "scalar" else (lambda k: S.at(env["bdata"], k))
+        yield "boolean-result", S.kind(result.values) == "b"
+        yield "numpys-comparison-cell-by-cell", S.forall(0, n, lambda k: S.iff(S.at(result.values, k), f(S.at(old, k), rhs(k))))
+        yield "no-metadata-of-the-operands", len(result.attrs) == 0
+        a = env["a"]
+        yield "operand-untouched", S.land(a.values is env["data"], all(u is v for u, v in zip(a.axes, env["axes0"])), dict(a.attrs) == ATTRS,
+                                          S.forall(0, n, lambda p: S.same(S.at(env["data"], p), S.at(old, p))))
+
+    def canaries(self, S, case, env, result):
+        if S.is_dimarray(result):
+            yield "result-is-empty", S.n(result.values) == 0
+        else:
+            yield "always-true", result is True
